@@ -26,11 +26,13 @@ def run(chk):
     sutmon.monitor_start_update_check(chk, (1,))
     sutmon.monitor_ping(chk, 1, 1)
     sutmon.monitor_report(chk, 2)
-    keep = ('exchange-verifies-first', 'no-retry-after-forgery', 'forged-check-counts-as-failure', 'ping-bookkeeping', 'report-once')
+    import c03
+    c03.build_with_handler(chk)       # the guarantee side of the build() contract the exchange exploration assumes
+    keep = ('exchange-verifies-first', 'no-retry-after-forgery', 'forged-check-counts-as-failure', 'ping-bookkeeping', 'report-once', 'build-decorates-what-it-sends')
     chk.obligations = [o for o in chk.obligations if o.name in keep]
     chk.bounds['paths'] = 'all paths of do_omaha_request_and_update_context (no loops); header value <= 4 bytes (irrelevant to this property)'
     chk.assumptions += [
-        'logging is off; RequestBuilder::build abstract with contract "metadata is Some iff a handler was given"',
+        'logging is off; in the exchange exploration RequestBuilder::build is abstract with contract "metadata is Some iff a handler was given", which the build-decorates-what-it-sends obligation establishes on the real build() for every builder content (update check, ping only, event only, empty)',
         'replay resistance end to end follows from C01 (nonce in the signed digest) and C03 (fresh nonce per request), not re-proved here',
     ]
 
